@@ -2,6 +2,315 @@
 From Coq Require Import List ZArith String Bool Arith Lia.
 From MechV Require Import Base.Sexp Base.Obs Model.Store.
 Import ListNotations.
+Open Scope list_scope.
 
-Lemma step_err_frame T st T' : step_okb T st false T' = true -> frameb [] T T' = true.
-Proof. unfold step_okb. cbn. auto. Qed.
+(* ================================================================== *)
+(* A. the equality tests are equalities                                *)
+(* ================================================================== *)
+Lemma dy_eqb_eq (a b : dy) : dy_eqb a b = true <-> a = b.
+Proof.
+  destruct a as [m e], b as [m' e']; unfold dy_eqb; cbn [fst snd]. split.
+  - intros H. apply andb_prop in H as [H1 H2]. apply Z.eqb_eq in H1, H2. congruence.
+  - intros H. inversion H; subst. rewrite !Z.eqb_refl. reflexivity.
+Qed.
+
+Lemma dys_eqb_eq (a b : list dy) : dys_eqb a b = true <-> a = b.
+Proof.
+  revert b. induction a as [|x a IH]; intros [|y b]; cbn; split; intros H; try discriminate; try reflexivity.
+  - apply andb_prop in H as [H1 H2]. apply dy_eqb_eq in H1. apply IH in H2. congruence.
+  - inversion H; subst. apply andb_true_intro. split; [apply dy_eqb_eq; reflexivity | apply IH; reflexivity].
+Qed.
+
+Lemma cols_eqb_eq (a b : list (string * list dy)) : cols_eqb a b = true <-> a = b.
+Proof.
+  revert b. induction a as [|[n x] a IH]; intros [|[n' y] b]; cbn; split; intros H; try discriminate; try reflexivity.
+  - apply andb_prop in H as [H1 H3]. apply andb_prop in H1 as [H1 H2].
+    apply String.eqb_eq in H1. apply dys_eqb_eq in H2. apply IH in H3. congruence.
+  - inversion H; subst. rewrite String.eqb_refl. cbn.
+    apply andb_true_intro. split; [apply dys_eqb_eq; reflexivity | apply IH; reflexivity].
+Qed.
+
+Fixpoint dv_eqb_sound (a : dv) : forall b, dv_eqb a b = true -> a = b.
+Proof.
+  destruct a as [x|r c d|l|l|l|l]; intros [x'|r' c' d'|l'|l'|l'|l'] H; cbn in H; try discriminate.
+  - apply dy_eqb_eq in H. congruence.
+  - apply andb_prop in H as [H H3]. apply andb_prop in H as [H1 H2].
+    apply Nat.eqb_eq in H1, H2. apply dys_eqb_eq in H3. congruence.
+  - apply dys_eqb_eq in H. congruence.
+  - apply cols_eqb_eq in H. congruence.
+  - f_equal. revert l' H. induction l as [|v l IH]; intros [|w l'] H; try discriminate; [reflexivity|].
+    apply andb_prop in H as [H1 H2]. f_equal; [apply dv_eqb_sound; exact H1 | apply IH; exact H2].
+  - f_equal. revert l' H. induction l as [|[n v] l IH]; intros [|[n' w] l'] H; try discriminate; [reflexivity|].
+    apply andb_prop in H as [H1 H3]. apply andb_prop in H1 as [H1 H2]. apply String.eqb_eq in H1. subst.
+    f_equal; [f_equal; apply dv_eqb_sound; exact H2 | apply IH; exact H3].
+Qed.
+
+Fixpoint dv_eqb_refl (a : dv) : dv_eqb a a = true.
+Proof.
+  destruct a as [x|r c d|l|l|l|l]; cbn.
+  - apply dy_eqb_eq; reflexivity.
+  - rewrite !Nat.eqb_refl. cbn. apply dys_eqb_eq; reflexivity.
+  - apply dys_eqb_eq; reflexivity.
+  - apply cols_eqb_eq; reflexivity.
+  - induction l as [|v l IH]; [reflexivity|]. rewrite dv_eqb_refl. exact IH.
+  - induction l as [|[n v] l IH]; [reflexivity|]. rewrite String.eqb_refl, dv_eqb_refl. exact IH.
+Qed.
+
+Lemma dv_eqb_eq (a b : dv) : dv_eqb a b = true <-> a = b.
+Proof. split; [apply dv_eqb_sound | intros ->; apply dv_eqb_refl]. Qed.
+
+Lemma row_eqb_eq (a b : row) : row_eqb a b = true <-> a = b.
+Proof.
+  destruct a as [m v], b as [m' v']; unfold row_eqb; cbn [fst snd]. split.
+  - intros H. apply andb_prop in H as [H1 H2]. apply eqb_prop in H1. apply dv_eqb_eq in H2. congruence.
+  - intros H. inversion H; subst. rewrite eqb_reflx. apply dv_eqb_eq. reflexivity.
+Qed.
+
+Lemma orow_eqb_eq (a b : option row) : orow_eqb a b = true <-> a = b.
+Proof.
+  destruct a as [x|], b as [y|]; cbn; split; intros H; try discriminate; try reflexivity.
+  - apply row_eqb_eq in H. congruence.
+  - inversion H; subst. apply row_eqb_eq. reflexivity.
+Qed.
+
+Lemma mem_In (x : string) (l : list string) : mem x l = true <-> In x l.
+Proof.
+  induction l as [|y l IH]; cbn; [split; [discriminate | tauto]|].
+  rewrite orb_true_iff, IH, String.eqb_eq. split; intros [H|H]; auto.
+Qed.
+
+Lemma nodupb_NoDup (l : list string) : nodupb l = true <-> NoDup l.
+Proof.
+  induction l as [|x l IH]; cbn; [split; [constructor | reflexivity]|].
+  rewrite andb_true_iff, negb_true_iff, IH. split.
+  - intros [H1 H2]. constructor; [|exact H2]. intros Hin. apply mem_In in Hin. congruence.
+  - intros H. inversion H; subst. split; [|assumption].
+    destruct (mem x l) eqn:E; [|reflexivity]. apply mem_In in E. contradiction.
+Qed.
+
+Lemma find_None {A} (x : string) (l : list (string * A)) : find x l = None <-> ~ In x (keys l).
+Proof.
+  induction l as [|[y a] l IH]; cbn; [tauto|].
+  destruct (String.eqb x y) eqn:E.
+  - apply String.eqb_eq in E. subst. split; [discriminate | intros H; exfalso; apply H; auto].
+  - apply String.eqb_neq in E. rewrite IH. split; [intros H [H1|H1]; [congruence | auto] | intros H H1; apply H; auto].
+Qed.
+
+Lemma find_In {A} (x : string) (a : A) (l : list (string * A)) : find x l = Some a -> In (x, a) l.
+Proof.
+  induction l as [|[y b] l IH]; cbn; [discriminate|].
+  destruct (String.eqb x y) eqn:E.
+  - apply String.eqb_eq in E. intros H. inversion H; subst. auto.
+  - auto.
+Qed.
+
+Lemma In_find {A} (x : string) (a : A) (l : list (string * A)) : NoDup (keys l) -> In (x, a) l -> find x l = Some a.
+Proof.
+  induction l as [|[y b] l IH]; cbn; [tauto|]. intros Hnd [H|H].
+  - inversion H; subst. rewrite String.eqb_refl. reflexivity.
+  - inversion Hnd; subst. destruct (String.eqb x y) eqn:E.
+    + apply String.eqb_eq in E. subst. exfalso. apply H2. apply (in_map fst) in H. exact H.
+    + apply IH; assumption.
+Qed.
+
+(* ================================================================== *)
+(* B. the property as a proposition                                    *)
+(* ================================================================== *)
+(* every name outside xs means the same in T and T' *)
+Definition frame (xs : list string) (T T' : tab) : Prop :=
+  forall n, ~ In n xs -> find n T' = find n T.
+
+Inductive step_ok (T : tab) : stmt -> bool -> tab -> Prop :=
+| ok_err st T' :                        (* a failing statement changes nothing at all *)
+    frame [] T T' -> step_ok T st false T'
+| ok_def mu x e v T' :                  (* a definition adds exactly x, with the value of its right-hand side *)
+    find x T = None -> seval T e = Some v -> find x T' = Some (mu, v) -> frame [x] T T' ->
+    step_ok T (SDef mu x e) true T'
+| ok_destr xs e l T' :                  (* a destructure adds exactly its (new, distinct) targets, immutable *)
+    seval T e = Some (DTup l) -> NoDup xs -> (forall x, In x xs -> find x T = None) ->
+    List.length xs <= List.length l ->
+    (forall i x v, nth_error xs i = Some x -> nth_error l i = Some v -> find x T' = Some (false, v)) ->
+    frame xs T T' ->
+    step_ok T (SDestr xs e) true T'
+| ok_asg st x v0 v1 T' :                (* an assignment needs a mutable target and touches nothing else *)
+    assign_target st = Some x -> find x T = Some (true, v0) -> find x T' = Some (true, v1) -> frame [x] T T' ->
+    step_ok T st true T'.
+
+Fixpoint trace_ok (T : tab) (tr : list tstep) : Prop :=
+  match tr with
+  | [] => True
+  | (st, ok, T') :: r => step_ok T st ok T' /\ trace_ok T' r
+  end.
+
+Lemma frameb_frame xs T T' : frameb xs T T' = true <-> frame xs T T'.
+Proof.
+  unfold frameb, frame. rewrite forallb_forall. split.
+  - intros H n Hn. destruct (in_dec string_dec n (keys T ++ keys T')) as [Hin|Hin].
+    + specialize (H n Hin). apply orb_true_iff in H as [H|H].
+      * apply mem_In in H. contradiction.
+      * apply orow_eqb_eq in H. exact H.
+    + assert (H1 : find n T = None) by (apply find_None; intros X; apply Hin; apply in_or_app; auto).
+      assert (H2 : find n T' = None) by (apply find_None; intros X; apply Hin; apply in_or_app; auto).
+      congruence.
+  - intros H n _. destruct (mem n xs) eqn:E; [reflexivity|]. cbn.
+    apply orow_eqb_eq. apply H. intros Hin. apply mem_In in Hin. congruence.
+Qed.
+
+Lemma destr_rowsb_spec xs l T' :
+  destr_rowsb xs l T' = true <->
+  (List.length xs <= List.length l /\
+   forall i x v, nth_error xs i = Some x -> nth_error l i = Some v -> find x T' = Some (false, v)).
+Proof.
+  revert l. induction xs as [|x xs IH]; intros l; cbn [destr_rowsb].
+  - split; [intros _; split; [cbn; lia | intros [|i] ? ? H; discriminate] | reflexivity].
+  - destruct l as [|v l].
+    + split; [discriminate | intros [H _]; cbn in H; lia].
+    + rewrite andb_true_iff, IH, orow_eqb_eq. split.
+      * intros [H1 [H2 H3]]. split; [cbn; lia|]. intros [|i] y w Hy Hw; cbn in Hy, Hw.
+        -- inversion Hy; inversion Hw; subst. exact H1.
+        -- eapply H3; eassumption.
+      * intros [H1 H2]. split; [apply (H2 0); reflexivity|]. split; [cbn in H1; lia|].
+        intros i y w Hy Hw. apply (H2 (S i)); assumption.
+Qed.
+
+Lemma forallb_undef xs (T : tab) :
+  forallb (fun x => match find x T with None => true | Some _ => false end) xs = true <->
+  (forall x, In x xs -> find x T = None).
+Proof.
+  rewrite forallb_forall. split; intros H x Hx; specialize (H x Hx); destruct (find x T); congruence.
+Qed.
+
+Theorem step_okb_ok T st ok T' : step_okb T st ok T' = true <-> step_ok T st ok T'.
+Proof.
+  unfold step_okb. destruct ok; cbn [negb].
+  2:{ rewrite frameb_frame. split; [apply ok_err | intros H; inversion H; assumption]. }
+  destruct st as [mu x e|x e|x i s|x i j s|x o e|x f e|x k e|xs e]; cbn [assign_target].
+  - destruct (find x T) as [r|] eqn:Ef.
+    { split; [discriminate | intros H; inversion H; subst; [congruence | discriminate]]. }
+    destruct (seval T e) as [v|] eqn:Ee.
+    2:{ split; [discriminate | intros H; inversion H; subst; [congruence | discriminate]]. }
+    rewrite andb_true_iff, orow_eqb_eq, frameb_frame. split.
+    + intros [H1 H2]. eapply ok_def; eassumption.
+    + intros H. inversion H; subst; [|discriminate]. split; [congruence | assumption].
+  - destruct (find x T) as [[[|] v0]|] eqn:E0; try (split; [discriminate | intros H; inversion H; subst; cbn in *; congruence]).
+    destruct (find x T') as [[[|] v1]|] eqn:E1; try (split; [discriminate | intros H; inversion H; subst; cbn in *; congruence]).
+    rewrite frameb_frame. split; [intros H; eapply ok_asg; [reflexivity|eassumption|eassumption|assumption] | intros H; inversion H; subst; cbn in *; congruence].
+  - destruct (find x T) as [[[|] v0]|] eqn:E0; try (split; [discriminate | intros H; inversion H; subst; cbn in *; congruence]).
+    destruct (find x T') as [[[|] v1]|] eqn:E1; try (split; [discriminate | intros H; inversion H; subst; cbn in *; congruence]).
+    rewrite frameb_frame. split; [intros H; eapply ok_asg; [reflexivity|eassumption|eassumption|assumption] | intros H; inversion H; subst; cbn in *; congruence].
+  - destruct (find x T) as [[[|] v0]|] eqn:E0; try (split; [discriminate | intros H; inversion H; subst; cbn in *; congruence]).
+    destruct (find x T') as [[[|] v1]|] eqn:E1; try (split; [discriminate | intros H; inversion H; subst; cbn in *; congruence]).
+    rewrite frameb_frame. split; [intros H; eapply ok_asg; [reflexivity|eassumption|eassumption|assumption] | intros H; inversion H; subst; cbn in *; congruence].
+  - destruct (find x T) as [[[|] v0]|] eqn:E0; try (split; [discriminate | intros H; inversion H; subst; cbn in *; congruence]).
+    destruct (find x T') as [[[|] v1]|] eqn:E1; try (split; [discriminate | intros H; inversion H; subst; cbn in *; congruence]).
+    rewrite frameb_frame. split; [intros H; eapply ok_asg; [reflexivity|eassumption|eassumption|assumption] | intros H; inversion H; subst; cbn in *; congruence].
+  - destruct (find x T) as [[[|] v0]|] eqn:E0; try (split; [discriminate | intros H; inversion H; subst; cbn in *; congruence]).
+    destruct (find x T') as [[[|] v1]|] eqn:E1; try (split; [discriminate | intros H; inversion H; subst; cbn in *; congruence]).
+    rewrite frameb_frame. split; [intros H; eapply ok_asg; [reflexivity|eassumption|eassumption|assumption] | intros H; inversion H; subst; cbn in *; congruence].
+  - destruct (find x T) as [[[|] v0]|] eqn:E0; try (split; [discriminate | intros H; inversion H; subst; cbn in *; congruence]).
+    destruct (find x T') as [[[|] v1]|] eqn:E1; try (split; [discriminate | intros H; inversion H; subst; cbn in *; congruence]).
+    rewrite frameb_frame. split; [intros H; eapply ok_asg; [reflexivity|eassumption|eassumption|assumption] | intros H; inversion H; subst; cbn in *; congruence].
+  - destruct (seval T e) as [[| | | |l|]|] eqn:Ee;
+      try (split; [discriminate | intros H; inversion H; subst; [congruence | discriminate]]).
+    rewrite !andb_true_iff, nodupb_NoDup, forallb_undef, destr_rowsb_spec, frameb_frame. split.
+    + intros [[H1 H2] [[H3 H4] H5]]. eapply ok_destr; eassumption.
+    + intros H. inversion H; subst; [|discriminate].
+      assert (l0 = l) by congruence. subst. tauto.
+Qed.
+
+Theorem trace_okb_ok T tr : trace_okb T tr = true <-> trace_ok T tr.
+Proof.
+  revert T. induction tr as [|[[st ok] T'] r IH]; intros T; cbn; [tauto|].
+  rewrite andb_true_iff, step_okb_ok, IH. tauto.
+Qed.
+
+(* ================================================================== *)
+(* C. what the property means for whole histories                      *)
+(* ================================================================== *)
+Lemma frame_nil T T' : frame [] T T' <-> (forall n, find n T' = find n T).
+Proof. unfold frame. split; intros H n; [apply H; intros [] | intros _; apply H]. Qed.
+
+(* one step never touches an immutable binding *)
+Lemma step_keeps_immutable T st ok T' x v :
+  step_ok T st ok T' -> find x T = Some (false, v) -> find x T' = Some (false, v).
+Proof.
+  intros H Hx. inversion H; subst.
+  - rewrite <- Hx. apply H0. intros [].
+  - rewrite <- Hx. apply H3. intros [E|[]]. subst. congruence.
+  - rewrite <- Hx. apply H5. intros Hin. apply H2 in Hin. congruence.
+  - rewrite <- Hx. apply H3. intros [E|[]]. subst. congruence.
+Qed.
+
+Definition states (tr : list tstep) : list tab := map snd tr.
+
+(* a binding made without ~ keeps its value whatever follows *)
+Theorem immutable_forever T tr x v :
+  trace_ok T tr -> find x T = Some (false, v) -> Forall (fun T' => find x T' = Some (false, v)) (states tr).
+Proof.
+  revert T. induction tr as [|[[st ok] T'] r IH]; intros T Htr Hx; cbn; [constructor|].
+  destruct Htr as [H1 H2]. pose proof (step_keeps_immutable _ _ _ _ _ _ H1 Hx) as Hx'.
+  constructor; [exact Hx' | eapply IH; eassumption].
+Qed.
+
+(* ... and that value is the value its right-hand side had when it was defined *)
+Theorem defined_value_forever T x e T1 tr v :
+  trace_ok T ((SDef false x e, true, T1) :: tr) -> seval T e = Some v ->
+  Forall (fun T' => find x T' = Some (false, v)) (T1 :: states tr).
+Proof.
+  intros [H1 H2] Hv. inversion H1; subst.
+  assert (v0 = v) by congruence. subst.
+  constructor; [assumption | eapply immutable_forever; eassumption].
+Qed.
+
+(* assigning to or through x changes nothing seen through another name, nor which names exist *)
+Theorem assign_only_target T st T' x :
+  step_ok T st true T' -> assign_target st = Some x ->
+  (forall n, n <> x -> find n T' = find n T) /\
+  (forall n, find n T' = None <-> find n T = None) /\
+  (exists v0 v1, find x T = Some (true, v0) /\ find x T' = Some (true, v1)).
+Proof.
+  intros H Hx. inversion H; subst; try discriminate.
+  assert (x0 = x) by congruence. subst.
+  assert (Hf : forall n, n <> x -> find n T' = find n T) by (intros n Hn; apply H3; intros [E|[]]; congruence).
+  split; [exact Hf|]. split; [|eauto].
+  intros n. destruct (string_dec n x) as [->|Hn]; [rewrite H1, H2; split; discriminate | rewrite (Hf n Hn); tauto].
+Qed.
+
+(* a failing statement leaves every binding and the set of names as they were *)
+Theorem failure_atomic T st T' :
+  step_ok T st false T' -> forall n, find n T' = find n T.
+Proof. intros H. inversion H; subst. apply frame_nil. assumption. Qed.
+
+(* the three mandatory errors *)
+Definition must_fail (T : tab) (st : stmt) : Prop :=
+  match st with
+  | SDef _ x _ => find x T <> None                                   (* redefinition *)
+  | SDestr xs _ => exists x, In x xs /\ find x T <> None             (* redefinition by a destructure *)
+  | _ => match assign_target st with
+         | Some x => find x T = None \/ exists v, find x T = Some (false, v)   (* undefined / immutable target *)
+         | None => False
+         end
+  end.
+
+Theorem errors_rejected T st ok T' : step_ok T st ok T' -> must_fail T st -> ok = false.
+Proof.
+  intros H Hm. inversion H; subst; try reflexivity; exfalso.
+  - cbn in Hm. congruence.
+  - cbn in Hm. destruct Hm as [x [Hx Hd]]. apply Hd. apply H2. exact Hx.
+  - destruct st; cbn in H0; try discriminate; cbn in Hm; inversion H0; subst;
+      (destruct Hm as [Hm|[v Hm]]; congruence).
+Qed.
+
+(* ================================================================== *)
+(* D. the judge                                                        *)
+(* ================================================================== *)
+Theorem judge_hist_sound h os tag :
+  judge_hist h os = v_ok tag -> trace_ok [] (obs_trace h os).
+Proof.
+  unfold judge_hist.
+  destruct (negb (Nat.eqb (List.length h) (List.length os))); [discriminate|].
+  destruct (trace_okb [] (obs_trace h os)) eqn:E.
+  - intros _. apply trace_okb_ok. exact E.
+  - destruct (find_cfg h os) as [cf|]; [|discriminate].
+    destruct (classes cf store0 [] h os) as [[|id r]|]; discriminate.
+Qed.
